@@ -22,6 +22,6 @@ for root, dirs, files in os.walk("/repo"):
             n += 1
             open(q, "w").write(t)
             repl[p] = q
-repl["/repo/verifshim/shim.go"] = "/verif/overlays/verifshim/shim.go"
+repl["/repo/verifshim/shim.go"] = os.path.join(os.path.dirname(os.path.dirname(os.path.abspath(__file__))), "overlays/verifshim/shim.go")
 json.dump({"Replace": repl}, open(os.path.join(out, "overlay.json"), "w"), indent=1)
 print(n, "files rewritten")
